@@ -2,7 +2,7 @@
 From Coq Require Import Ascii String List Bool Arith ZArith NArith Lia.
 From PTBase Require Import Exn PyStr PyNum PyVal Fmt FixedFormat.
 From Gen Require Import GenTables GenMulgrid.
-From P Require Import Flt Lines MulgridIO RoundTrip Header Idem.
+From P Require Import Flt Lines MulgridIO RoundTrip Header Idem Fields Natural.
 Import ListNotations.
 Open Scope Z_scope.
 Open Scope list_scope.
@@ -63,6 +63,8 @@ Definition ex_geo : geo :=
      mklay (s2l " 3") (dz (-30)) (dz (-20))]
     [mkwell (s2l "w 1") [(dz 10, dz 10, dz 20); (dy_of_dec false 125 (-1), dz 10, dz (-25))]].
 Example ex_geo_wf : wf ex_geo = true.
+Proof. vm_compute. reflexivity. Qed.
+Example ex_geo_nwf : nwf ex_geo = true.
 Proof. vm_compute. reflexivity. Qed.
 Example ex_geo_idem : idem_ok ex_geo = true.
 Proof. vm_compute. reflexivity. Qed.
